@@ -182,13 +182,15 @@ package chain
 //@   ensures poolInv(m)
 //@   ensures m.store == old(m.store) && m.tipState == old(m.tipState)
 //
-//@ func (*Manager).PoolTransaction props C14
+//@ func (*Manager).PoolTransaction props C14,C05
+//@   ensures [revalidated] called("revalidatePool")
 //@   nopanic
 //@   requires m != nil
 //@   ensures [id] result1 ==> result0.ID() == id
 //@   ensures [absent] !result1 ==> forall i int :: { m.txpool.txns[i] } 0 <= i && i < len(m.txpool.txns) ==> m.txpool.txns[i].ID() != id
 //
-//@ func (*Manager).V2PoolTransaction props C14
+//@ func (*Manager).V2PoolTransaction props C14,C05
+//@   ensures [revalidated] called("revalidatePool")
 //@   nopanic
 //@   requires m != nil
 //@   ensures [id] result1 ==> result0.ID() == id
@@ -363,7 +365,8 @@ package chain
 //
 // Submission is all-or-nothing: on an error the pool has exactly the transactions it had
 // after the initial revalidation (same lengths, same indexed ids).
-//@ func (*Manager).AddPoolTransactions props C14
+//@ func (*Manager).AddPoolTransactions props C14,C05
+//@   ensures [revalidated] called("revalidatePool")
 //@   requires m != nil
 //@   ghostvar preLen int
 //@   ghostvar preLen2 int
@@ -385,7 +388,8 @@ package chain
 //@     invariant m.txpool.indices == idxRef && idxRef != nil
 //@   ensures [atomic] result1 != nil ==> len(m.txpool.txns) == preLen && len(m.txpool.v2txns) == preLen2
 //
-//@ func (*Manager).AddV2PoolTransactions props C14
+//@ func (*Manager).AddV2PoolTransactions props C14,C05
+//@   ensures [revalidated] called("revalidatePool")
 //@   requires m != nil && m.store != nil
 //@   ghostvar preLen int
 //@   ghostvar preLen1 int
@@ -438,7 +442,8 @@ package chain
 // reorgTo: only apply/revert steps move the tip; the single Flush comes after the last step;
 // success with at least one apply ends at the requested index; it is entered only when the
 // target is sufficiently heavier than the current tip, or to roll back a reorg that just failed.
-//@ func (*Manager).reorgTo props C01,C03
+//@ func (*Manager).reorgTo props C01,C03,C05
+//@   ensures [pool-invalidated] result == nil ==> m.txpool.ms == nil
 //@   requires m != nil && m.store != nil
 //@   precall [gate] (called("SufficientlyHeavierThan") && callres("SufficientlyHeavierThan") && callarg("SufficientlyHeavierThan", 1) == m.tipState && callarg("SufficientlyHeavierThan", 0).Index == index)
 //@              || (called("reorgTo") && callres("reorgTo") != nil)
@@ -449,9 +454,9 @@ package chain
 //@   loop "range apply"
 //@     invariant m == old(m) && m.store == old(m.store) && -1 <= rangeindex && rangeindex < len(apply)
 //@   loop "range b.Transactions"
-//@     invariant m == old(m) && m.store == old(m.store) && -1 <= rangeindex && rangeindex < len(b.Transactions)
+//@     invariant m == old(m) && m.store == old(m.store) && -1 <= rangeindex && rangeindex < len(b.Transactions) && m.txpool.ms == nil
 //@   loop "range b.V2Transactions()"
-//@     invariant m == old(m) && m.store == old(m.store)
+//@     invariant m == old(m) && m.store == old(m.store) && m.txpool.ms == nil
 //@   ensures [frame] m.store == old(m.store)
 //@   ensures [flush-last] result == nil ==> called("Store.Flush")
 //@   ensures [no-flush-on-error] result != nil ==> !mayHaveCalled("Store.Flush") || callres("Store.Flush") != nil
@@ -495,7 +500,8 @@ package chain
 // C14 (aliasing): v2 transactions handed out by pool queries are deep copies, so mutating them
 // cannot affect the pool; transactions stored by a v2 submission are deep copies of the caller's.
 // isCopy(t) is only ever established by DeepCopy (assumed contract on core).
-//@ func (*Manager).V2PoolTransactions props C14
+//@ func (*Manager).V2PoolTransactions props C14,C05
+//@   ensures [revalidated] called("revalidatePool")
 //@   nopanic
 //@   requires m != nil
 //@   loop "range m.txpool.v2txns"
@@ -504,7 +510,8 @@ package chain
 //@   ensures [copies] forall i int :: { result[i] } 0 <= i && i < len(result) ==> isCopy(result[i])
 //@   ensures [same] len(result) == len(m.txpool.v2txns) && (forall i int :: { result[i] } 0 <= i && i < len(result) ==> result[i].ID() == m.txpool.v2txns[i].ID())
 //
-//@ func (*Manager).TransactionsForPartialBlock props C14
+//@ func (*Manager).TransactionsForPartialBlock props C14,C05
+//@   ensures [revalidated] called("revalidatePool")
 //@   requires m != nil
 //@   loop "range missing"
 //@     invariant m == old(m) && len(v2txns) == 0
@@ -650,7 +657,8 @@ package chain
 // V2TransactionSet: the set handed to the rebase is the pooled ancestors of txn in pool order
 // (strictly increasing pool positions, so parents come before their children whatever the order
 // in which the inputs name them), followed by txn; on success the basis is the tip.
-//@ func (*Manager).V2TransactionSet props C13
+//@ func (*Manager).V2TransactionSet props C13,C05
+//@   ensures [revalidated] called("revalidatePool")
 //@   nopanic
 //@   requires m != nil && m.store != nil
 //@   loop "range txn.SiacoinInputs"
@@ -688,3 +696,21 @@ package chain
 //@        m.txpool.indices[callarg("updateV2TransactionProofs", 1)[a].ID()] < m.txpool.indices[callarg("updateV2TransactionProofs", 1)[b].ID()]
 //@   ensures [parents-pooled] forall a int :: { callarg("updateV2TransactionProofs", 1)[a] } 0 <= a && a < len(callarg("updateV2TransactionProofs", 1)) - 1 ==>
 //@        (callarg("updateV2TransactionProofs", 1)[a].ID() in m.txpool.indices) && isCopy(callarg("updateV2TransactionProofs", 1)[a])
+//
+// ---------------------------------------------------------------------------
+// C05: the pool as a continuation of the tip. The cached validation state (txpool.ms) is dropped
+// by every successful reorganisation (reorgTo, above) and every reader of the pool revalidates
+// first; revalidatePool itself -- re-validating every transaction in order against a fresh
+// mid-state of the tip -- is consensus-dependent and assumed (poolInv, C14).
+//@ func (*Manager).PoolTransactions props C05
+//@   nopanic
+//@   requires m != nil
+//@   ensures [revalidated] called("revalidatePool")
+//@   ensures [snapshot] len(result) == len(m.txpool.txns) && (forall i int :: { result[i] } 0 <= i && i < len(result) ==> result[i] == m.txpool.txns[i])
+//@   ensures [own-memory] len(result) > 0 ==> !sameArray(result, m.txpool.txns)
+//@ func (*Manager).UnconfirmedParents props C05
+//@   requires m != nil
+//@   ensures [revalidated] called("revalidatePool")
+//@ func (*Manager).RecommendedFee props C05
+//@   requires m != nil
+//@   ensures [revalidated] called("revalidatePool")
